@@ -1,6 +1,6 @@
 (* C12Theorems.v — the property theorems of C12 and nothing else. *)
 From V.lib Require Import Base.
-From V.c12 Require Import C12Model C12Spec C12Sidx C12PartProofs C12BoundProofs C12EncProofs C12SidxProofs.
+From V.c12 Require Import C12Model C12Spec C12Sidx C12PartProofs C12BoundProofs C12ShapeProofs C12EncProofs C12SidxProofs.
 
 (* Every accepted top-level sequence, every flag combination: the children of the fragments of the
    segments, flattened in order, are exactly the emsg/moof/mdat boxes of the input in order (minus
@@ -20,6 +20,15 @@ Theorem C12_partition_fragmented : forall (o : opts) (bs : list topbox) (f : fil
   concat (map fr_children (concat (map sg_frags (f_segs f)))) = filter is_media bs.
 Proof. exact partition_fragmented_flat. Qed.
 Print Assumptions C12_partition_fragmented.
+
+(* ... and each fragment of a decoded file has the shape  emsg* [moof [mdat] emsg*]  with Moof / Mdat
+   pointing at those boxes: at most one moof and one mdat per fragment, the mdat directly after its
+   moof (a moof/mdat pair is never split over fragments or segments).  Together with
+   C12_segment_mode_encode: in a file that re-encodes, every fragment has exactly one pair. *)
+Theorem C12_fragment_shape : forall (o : opts) (bs : list topbox) (f : file),
+  assemble o bs = Ok f -> Forall (fun s => Forall frag_shape (sg_frags s)) (f_segs f).
+Proof. exact fragment_shape. Qed.
+Print Assumptions C12_fragment_shape.
 
 (* Where segments start: the (StartPos, has styp) list of the assembled segments is the list computed
    by the boundary rules of C12Spec over the input sequence: a segment starts at box i iff i is a
